@@ -128,6 +128,32 @@ PROPS = {
                    ' IOBase.check_connection): concurrency and time - no sequential contract in reach'],
         bounded=[CB('comm-contracts', 'contracts/comm.py', 'gens_comm', budget=120)],
     ),
+    'C06': dict(
+        contract_files=['contracts/describe.py'],
+        level='bounded',
+        trusted_base=COMMON_TRUSTED,
+        uncovered=['datainfo accepts / rejects exactly what the node does (that is C03 + C01 on the same datatype object), interface classes'
+                   ' and features, main-unit substitution: not covered here; description assembly has no deductive contract (strings, generated classes)'],
+        bounded=[CB('describe-contracts', 'contracts/describe.py', 'gens_describe')],
+    ),
+    'C13': dict(
+        contract_files=['contracts/poller.py'],
+        level='proof',
+        trusted_base=COMMON_TRUSTED + ['read / poll functions abstract (any result, any Exception)'],
+        uncovered=['the poll thread body (due-time computation, starvation freedom, staleness bounds): timing over unbounded loops is not'
+                   ' under a deductive contract; bounded stand-in in virtual time'],
+        bounded=[CB('poller-contracts', 'contracts/poller.py', 'gens_poller', budget=120)],
+    ),
+    'C15': dict(
+        contract_files=['contracts/poller.py'],
+        level='bounded',
+        trusted_base=COMMON_TRUSTED,
+        uncovered=['start-up order (initModule / startModule / interfaces) and shutdown in reverse order across server, secnode and'
+                   ' modules: a whole-history ordering over several threads, no sequential contract expresses it; only the poll thread'
+                   ' part (configured writes and initial reads of every handled module before the first poll, start-up callback once)'
+                   ' is evaluated by the bounded stand-in'],
+        bounded=[CB('poller-contracts', 'contracts/poller.py', 'gens_poller', budget=120)],
+    ),
     'C07': dict(
         contract_files=['contracts/protocol.py'],
         level='proof',
